@@ -21,6 +21,7 @@ func runC12(run *Run, replay string) {
 		bases, hist, posN = 600, 20, 100000
 	}
 	ctx := context.Background()
+	ehdCases(run)
 	objectHoverOracle(run, bases*3)
 	literalValueHoverOracle(run, bases*4)
 	referenceHoverOracle(run, bases)
